@@ -157,6 +157,31 @@ Proof.
       * intros Q; inversion Q; lia.
 Qed.
 
+(* two more clauses of the monitor vector follow from the invariant *)
+Theorem FE_mach_hold x : FE i x -> mach_hold_b x = true.
+Proof.
+  intros F. unfold mach_hold_b. apply forallb_forall. intros ms Hin. apply In_nth_error in Hin. destruct Hin as [m Hm].
+  assert (Hv : mview x m = Some (m_st ms, b_store (m_in ms))) by (unfold mview; rewrite Hm; reflexivity).
+  destruct (fe_hold _ _ F _ _ _ Hv) as [A B].
+  destruct (m_st ms) eqn:Es.
+  - rewrite A by reflexivity. reflexivity.
+  - destruct (B ltac:(discriminate)) as [j [k [o [E _]]]]. rewrite E. reflexivity.
+  - destruct (B ltac:(discriminate)) as [j [k [o [E _]]]]. rewrite E. reflexivity.
+  - destruct (B ltac:(discriminate)) as [j [k [o [E _]]]]. rewrite E. reflexivity.
+Qed.
+
+Theorem FE_past x : FE i x -> past_b x = true.
+Proof.
+  intros F. unfold past_b. apply forallb_forall. intros o Hin. apply in_flat_map in Hin. destruct Hin as [jb [Hjb Ho]].
+  apply In_nth_error in Hjb. destruct Hjb as [j Hj]. apply In_nth_error in Ho. destruct Ho as [k Hk].
+  assert (Vo : vop (view_of x) j k o) by (exists (j_ops jb); split; auto; simpl; unfold jops; rewrite Hj; reflexivity).
+  destruct (fe_past _ _ F _ _ _ Vo) as [A B].
+  destruct (o_st o) eqn:Es; auto.
+  - apply B; reflexivity.
+  - apply andb_true_iff. split; [|apply A; reflexivity].
+    eapply tle_trans; [|apply A; reflexivity]. apply (fe_times _ _ F _ _ _ Vo). congruence.
+Qed.
+
 (* the compiler's initial states *)
 Theorem fresh_FE x : fresh_b i x = true -> FE i x.
 Proof.
